@@ -26,5 +26,6 @@ def check(ctx, rep):
     _tok13.tok_13(ctx, rep)     # the indentation of a logical line is decided once
     from ..rules import rxr as _rx14
     _rx14.rx_14(ctx, rep)       # no exponentially ambiguous pattern: the matcher terminates in practice on every text
+    par.par_15(ctx, rep)      # the parser does not walk the tree it is building (no stack in proportion to the nesting depth)
     rep.note('Not decided: absence of every implicit exception; the shape clauses (root has no parent, last child is '
              'the end marker).')
